@@ -23,7 +23,7 @@ LEVEL_TEXT = ("Seeded exploration; oracle = static routing table from the genera
 LEVEL_NOTE = "Trusted: simulator loop, recording adapter decorator (tick + publish order), body logging."
 
 CFG = {"driver": "finish", "p_retry": 30, "p_fail": 20, "p_target": 35, "p_external": 50, "p_unhandled": 25,
-       "p_wait": 25, "p_ask": 15, "p_resp_step": 30, "n_work": (1, 5), "n_types": (1, 5)}
+       "p_wait": 25, "p_ask": 15, "p_resp_step": 30, "n_work": (1, 5), "n_types": (1, 5), "p_subclass": 35}
 
 
 def _h(u):
